@@ -299,4 +299,4 @@ BOUNDED = {'C12': [{'name': 'single-structural-faults-never-crash', 'script': 'm
 BOUNDED['C03'] = [{'name': 'hit-policy-differential', 'script': 'hpdiff.py', 'args': [],
                    'functions': ['EvaluatedDecisionTable::evaluate_hit_policy_* (all 11)', 'get_matching_rules / get_matching_rules_prioritized / get_result', 'build_decision_table_evaluator', 'parse_decision_table'],
                    'bound': 'every decision table with one number input (single-output tables also with the allowed input values 1,2 declared: A = 3 then matches no rule, not even `-`), 1..3 rules (input entry 1, 2 or -), one or two output clauses with two possible values each and priority lists, under each of the 11 hit policies, single-output tables also with a default output entry (answered when no rule matches) and compound tables also with null output entries (the component stays, as null), evaluated for '
-                            'A = 1, 2, 3 (66 996 evaluations through DMN XML on the real code) against the hit policy semantics of DMN 1.3 section 8.2.8 written out in Python; also decides the policies when a rewritten body leaves the extractor\'s reach'}]
+                            'A = 1, 2, 3 (67 038 evaluations through DMN XML on the real code) against the hit policy semantics of DMN 1.3 section 8.2.8 written out in Python; also decides the policies when a rewritten body leaves the extractor\'s reach'}]
